@@ -131,6 +131,11 @@ impl Group for P256Group {
     }
 
     fn deserialize(buf: &Self::Serialization) -> Result<Self::Element, GroupError> {
+        // Only the compressed SEC1 form is a canonical encoding; in particular the
+        // "compact" tag (0x05) must not be accepted as an alternative encoding.
+        if buf[0] != 0x02 && buf[0] != 0x03 {
+            return Err(GroupError::MalformedElement);
+        }
         let encoded_point =
             p256::Sec1Point::from_bytes(buf).map_err(|_| GroupError::MalformedElement)?;
 
